@@ -12,7 +12,9 @@ var values = []string{"1", "42", "abc", "a", "b", "users", "list", "new", "x1", 
 	"123e4567-e89b-42d3-a456-426614174000", "3.5", "A", "é", "%41", "a b", "0",
 	// near misses of the enum members: prefixes, suffixes, superstrings
 	"ab", "xb", "usersx", "xusers", "opened", "unclosed", "avoid", "open", "void", "v1x", "xv3", "v2",
-	"123e4567-e89b-62d3-a456-426614174000", "2024-1-01", "12a", "-3.5e2", "1e"}
+	"123e4567-e89b-62d3-a456-426614174000", "2024-1-01", "12a", "-3.5e2", "1e",
+	// dot segments and dots inside segments: a captured remainder is handed over verbatim
+	"..", ".", "x..y", "v1..2", "..a"}
 
 var consPalette = []ConsT{
 	{Kind: "int"}, {Kind: "int"}, {Kind: "float"}, {Kind: "uuid"}, {Kind: "date"},
@@ -20,6 +22,8 @@ var consPalette = []ConsT{
 	{Kind: "regex", Arg: "[a-z]+"}, {Kind: "where", Arg: `\d+`},
 	{Kind: "where", Arg: "[a-c]+"}, {Kind: "datetime"},
 }
+
+var wherePatterns = []string{`\d+`, `[a-c]+`, `[a-z0-9]+`, `.{1,3}`, `[^0]+`, `[a-z]+`, `[0-9a-f-]+`, `\w+`}
 
 func pickName(r *hx.Rand, used map[string]bool, allowDup bool) string {
 	if allowDup {
@@ -135,6 +139,13 @@ func genCons(r *hx.Rand, segs []string) []ConsT {
 				c2 := hx.Pick(r, consPalette)
 				c2.Name = s[1:]
 				cs = append(cs, c2)
+			}
+			if r.Chance(1, 8) { // two or three Where patterns on one parameter: all of them must hold
+				k := r.Range(2, 3)
+				cs = cs[:len(cs)-1]
+				for j := 0; j < k; j++ {
+					cs = append(cs, ConsT{Name: s[1:], Kind: "where", Arg: hx.Pick(r, wherePatterns)})
+				}
 			}
 		}
 	}
